@@ -201,6 +201,11 @@ var c12Queries = []struct {
 	{"\\+ fail.", 1}, {"\\+ true.", 0}, {"repeat.", -1}, {"between(1, 3, X), X > 1.", 2}, {"X is foo + 1.", -2}, {"member(X, [a, b]), !.", 1},
 	{"call(!).", 1}, {"once(member(X, [a, b])).", 1}, {"catch(throw(x), x, true).", 1}, {"findall(X, member(X, [a, b]), L).", 1}, {"atom(a), atom(b).", 1},
 	{"(true ; throw(late)).", -3},
+	// enumerations that end at the extremes of the integer range or in an open structure
+	{"between(9223372036854775806, 9223372036854775807, X).", 2}, {"between(9223372036854775807, 9223372036854775807, X).", 1},
+	{"between(-9223372036854775808, -9223372036854775807, X).", 2}, {"succ(X, 9223372036854775807).", 1}, {"length(L, 2), member(a, L), L = [_, b].", 1},
+	{"sub_atom(abc, B, 2, A, S).", 2}, {"atom_concat(X, Y, ab).", 3}, {"append(X, Y, [a]).", 2}, {"select(X, [a, b], R).", 2}, {"nth0(I, [a, b], E).", 2},
+	{"current_op(P, T, mod).", 1}, {"atom_chars(X, [a, b]).", 1}, {"retract(zz_missing(_)).", 0}, {"bagof(X, member(X, [b, a]), L).", 1}, {"setof(X-Y, member(X-Y, [b-1, a-2]), L).", 1},
 }
 
 // H_C12_queries: Next returns true exactly once per answer and false thereafter, for ordinary queries (inst).
